@@ -12,7 +12,7 @@ namespace djsim
 Json FaultSpec::to_json() const
 {
     Json j = Json::object();
-    static const char* kn[] = {"none", "F1", "F2", "F3", "F4"};
+    static const char* kn[] = {"none", "F1", "F2", "F3", "F4", "F9"};
     j.set("kind", kn[kind]);
     j.set("pos", (long long)pos);
     j.set("code", code);
@@ -21,15 +21,19 @@ Json FaultSpec::to_json() const
         j.set("method", vfs_method_name(method));
         j.set("role", file_role_name(role));
     }
+    if (kind == FK_LOCK)
+        j.set("role", file_role_name(role));
     return j;
 }
 FaultSpec FaultSpec::from_json(const Json& j)
 {
     FaultSpec f;
     std::string k = j.gets("kind", "none");
-    f.kind = k == "F1" ? FK_STMT : k == "F2" ? FK_TICK : k == "F3" ? FK_VFS : k == "F4" ? FK_MALLOC : FK_NONE;
+    f.kind = k == "F1" ? FK_STMT : k == "F2" ? FK_TICK : k == "F3" ? FK_VFS : k == "F4" ? FK_MALLOC : k == "F9" ? FK_LOCK : FK_NONE;
     f.pos = j.geti("pos");
     f.code = (int)j.geti("code");
+    if (f.kind == FK_LOCK)
+        f.role = file_role_from_name(j.gets("role", "m.db"));
     if (f.kind == FK_VFS)
     {
         f.method = vfs_method_from_name(j.gets("method"));
@@ -236,6 +240,7 @@ World::~World()
     if (hash_dump_target() == &log)
         hash_dump_target() = nullptr;
     foreign_forget();
+    contention_release();
     tracks.clear();
     crates.clear();
     db.reset();
@@ -339,13 +344,23 @@ void World::begin_call(const FaultSpec& f)
             g_taps.f4.fired = false;
             g_taps.f4.nth = (uint64_t)f.pos;
             break;
+        case FK_LOCK:
+            contention_prepare(f.role);
+            g_taps.f9.armed = true;
+            g_taps.f9.fired = g_taps.f9.attempted = false;
+            g_taps.f9.ordinal = (int)f.pos;
+            break;
         default: break;
     }
 }
 
 void World::end_call(Outcome& o)
 {
-    o.fault_fired = g_taps.f1.fired || g_taps.f2.fired || g_taps.f4.fired || g_disk.fault.fired;
+    o.fault_fired = g_taps.f1.fired || g_taps.f2.fired || g_taps.f4.fired || g_taps.f9.fired || g_disk.fault.fired;
+    if (g_taps.f9.fired)
+        fault_fired["F9"]++;
+    if (g_taps.f9.armed || g_taps.f9.attempted)
+        contention_release();
     if (g_taps.f1.fired)
         fault_fired["F1"]++;
     if (g_taps.f2.fired)
@@ -369,7 +384,7 @@ void World::end_call(Outcome& o)
     o.mallocs = g_taps.mallocs;
     if (g_disk.record_calls)
         o.vfs = g_disk.call_log;
-    g_taps.f1.fired = g_taps.f2.fired = g_taps.f4.fired = false;
+    g_taps.f1.fired = g_taps.f2.fired = g_taps.f4.fired = g_taps.f9.fired = g_taps.f9.attempted = false;
     g_taps.disarm();
     g_disk.fault = SimDisk::Armed{};
     if (g_taps.tick_watchdog_fired)
@@ -577,4 +592,49 @@ void World::run()
     log.u64(g_disk.image_hash());
 }
 
+}  // namespace djsim
+
+// ------------------------------------------------------------------ F9: lock contention by the second party
+namespace djsim
+{
+namespace
+{
+sqlite3* g_contender = nullptr;
+bool contender_lock()
+{
+    if (!g_contender)
+        return false;
+    HarnessScope hs;
+    return sqlite3_exec(g_contender, "BEGIN IMMEDIATE", nullptr, nullptr, nullptr) == SQLITE_OK;
+}
+}  // namespace
+
+void World::contention_prepare(int role)
+{
+    contention_release();
+    if (!plan.cfg.on_disk)
+        return;
+    std::string path = v2 ? dir + "/Database2/m.db" : dir + (role == FR_PDB ? "/p.db" : "/m.db");
+    HarnessScope hs;
+    if (sqlite3_open_v2(path.c_str(), &g_contender, SQLITE_OPEN_READWRITE, nullptr) != SQLITE_OK)
+    {
+        if (g_contender)
+            sqlite3_close_v2(g_contender);
+        g_contender = nullptr;
+        return;
+    }
+    // make the connection read the schema now, so that taking the lock later needs no I/O but the lock itself
+    sqlite3_exec(g_contender, "SELECT count(*) FROM sqlite_master", nullptr, nullptr, nullptr);
+    g_taps.contention_hook = contender_lock;
+}
+
+void World::contention_release()
+{
+    if (!g_contender)
+        return;
+    HarnessScope hs;
+    sqlite3_exec(g_contender, "ROLLBACK", nullptr, nullptr, nullptr);
+    sqlite3_close_v2(g_contender);
+    g_contender = nullptr;
+}
 }  // namespace djsim
